@@ -143,3 +143,37 @@ func calleeName(c ssa.CallInstruction) string {
 	}
 	return c.Common().Value.String()
 }
+
+// reportGated turns a gated backward closure into obligations: with no root outside allowedRoots every closure
+// member is discharged; otherwise the violation is reported at the frontier — the closure members that are not in
+// the reviewed set but whose next hop towards the sink is (or is the sink itself).
+func reportGated(r *core.Run, rule string, g core.GateResult, reviewed, allowedRoots map[string]string, what, gate string) {
+	var badRoots []string
+	for _, k := range core.SortedKeys(g.Roots) {
+		if allowedRoots[k] == "" {
+			badRoots = append(badRoots, k)
+		}
+	}
+	if len(badRoots) == 0 {
+		for _, k := range core.SortedKeys(g.Closure) {
+			r.OK(rule, k, g.Closure[k], "reaches "+what+"; every caller chain passes "+gate+" (next hop: "+g.Path[k]+") "+allowedRoots[k])
+		}
+		return
+	}
+	n := 0
+	for _, k := range core.SortedKeys(g.Closure) {
+		if reviewed[k] != "" || allowedRoots[k] != "" {
+			r.OK(rule, k, g.Closure[k], "reviewed member of the "+what+" path: "+reviewed[k]+allowedRoots[k])
+			continue
+		}
+		next := g.Path[k]
+		if next == "sink" || reviewed[next] != "" {
+			n++
+			r.Bad(rule, k+" reaches "+what+" outside "+gate, g.Closure[k],
+				fmt.Sprintf("function calls %s (towards %s) and is reachable from %d entry point(s) without passing %s, e.g. %s", next, what, len(badRoots), gate, badRoots[0]))
+		}
+	}
+	if n == 0 {
+		r.Bad(rule, badRoots[0]+" reaches "+what+" outside "+gate, g.Roots[badRoots[0]], "entry point reaches "+what+" without passing "+gate)
+	}
+}
